@@ -158,6 +158,13 @@ def run(F, rep, tier):
     exact_length_rule(F, G, rep)
     terminator_rule(F, G, rep)
     slpp_rule(F, G, rep)
+    # "never a panic": the reader's panic inventory (shared with C06) — a cut moves the stream end, not the code paths
+    import model
+    import safety
+    from props import C06
+    M = model.Model(F, rep, want=("with_capacity", "push_null", "read_push"))
+    gate_ok = safety.gate_consistency_table(F, rep, M)
+    safety.panic_inventory(F, G, rep, C06.ENTRIES, "c06_invariants.json", M=M, gate_ok=gate_ok)
     # positive control for must-pass: removing nothing must leave the Ok block reachable
     mir = [m for p, m, _ in G.bodies[SLP_READ] if p == SLP_READ][0]
     okb = [i for i, blk in enumerate(mir["blocks"]) for s in blk["stmts"] if s["lhs"]["l"] == 0 and s["r"].get("rv") == "agg" and s["r"]["kind"].startswith("adt:std::result::Result#0")]
